@@ -119,6 +119,26 @@ def saved_restored(ctx, fn: FunctionInfo, attr: str) -> bool:
     return any_path and ok_all
 
 
+def locally_restored(ctx, fn: FunctionInfo) -> bool:
+    """On every returning path of ``fn`` that switches the mode of an object with
+    train()/eval(), the last switch on that object writes back its ``training`` flag as read
+    before the first switch."""
+    any_switch = False
+    for p in returning(paths(ctx.repo, fn)):
+        last: Dict[Term, Term] = {}
+        for e in p.events:
+            mc = method_call(e.data[0]) if e.kind == 'call' else None
+            if mc and mc[1] in ('train', 'eval'):
+                mode = ('const', False) if mc[1] == 'eval' else (
+                    mc[2][0] if mc[2] else ('const', True))
+                last[mc[0]] = mode
+                any_switch = True
+        for recv, mode in last.items():
+            if mode != ('attr', recv, 'training'):
+                return False
+    return any_switch
+
+
 def run(ctx):
     repo = ctx.repo
     E = Effects(repo)
@@ -176,6 +196,9 @@ def run(ctx):
         observed_state = observed_by_w[w.name]
         # ---- R18a ------------------------------------------------------------------------
         modes = [e for e in effs if e.kind == 'mode']
+        # a switch that the switching function itself undoes (was = self.training; self.eval();
+        # ...; self.train(was)) leaves nothing to restore
+        modes = [e for e in modes if not locally_restored(ctx, e.fn)]
         if modes:
             ok = saved_restored(ctx, f, 'training')
             e0 = modes[0]
